@@ -220,6 +220,9 @@ func (s c01Spec) ops(w *model.World) (out []opx) {
 				out = append(out, o)
 			}
 		}
+		// row markers interleaved across blocks: delete here, delete far away, insert (into
+		// the lowest hole, i.e. usually the first block again) in one transaction
+		out = append(out, txnOp(w, []model.Act{{Op: "del", Off: r0}, {Op: "del", Off: hi}, {Op: "insert", W: []model.Write{o1}}}, false))
 		out = append(out, txnOp(w, []model.Act{{Op: "put", Off: hi, W: []model.Write{s.write(v0, false)}}, {Op: "put", Off: r0, W: []model.Write{s.write(v1, false)}}}, false))
 		out = append(out, txnOp(w, []model.Act{{Op: "put", Off: r0, W: []model.Write{s.write(v0, false)}}, {Op: "put", Off: hi, W: []model.Write{s.write(v1, false)}}}, false))
 	}
@@ -244,6 +247,9 @@ func c01Units(tier string) []eng.Unit {
 			if kd == "enum" || kd == "string" || kd == "record" {
 				specs = append(specs, c01Spec{kind: kd, preset: "many-distinct", cap: 64, depth: 2, nvals: 2, nrows: 2})
 			}
+			if kd != "key" {
+				specs = append(specs, c01Spec{kind: kd, preset: "dense-2+1", cap: 1024, depth: 3, nvals: 1, nrows: 2})
+			}
 			if kd != "expire" && kd != "key" {
 				specs = append(specs,
 					c01Spec{kind: kd, preset: "sparse-3", cap: 1024, depth: 3, nvals: 2, nrows: 3, late: true},
@@ -263,6 +269,9 @@ func c01Units(tier string) []eng.Unit {
 			}
 		}
 		specs = append(specs, c01Spec{kind: kd, preset: "sparse-3", cap: 1024, depth: 4, nvals: 3, nrows: 3})
+		if kd != "key" {
+			specs = append(specs, c01Spec{kind: kd, preset: "dense-2+1", cap: 1024, depth: 4, nvals: 2, nrows: 2})
+		}
 		if kd == "enum" || kd == "string" || kd == "record" {
 			specs = append(specs, c01Spec{kind: kd, preset: "many-distinct", cap: 64, depth: 3, nvals: 3, nrows: 2})
 		}
